@@ -11,8 +11,8 @@ from . import common, mand
 
 ID = "C16"
 LEVEL = "exploration"
-BUDGET = {"quick": 1200, "thorough": 32000}
-WALL_CAP = {"quick": 420, "thorough": 3300}
+BUDGET = {"quick": 16000, "thorough": 320000}
+WALL_CAP = {"quick": 600, "thorough": 5400}
 RULE = ("case = designed 3D world (as C07) x normal x position from the designed set x field list x level limit "
         "(restricted to levels that meet the plane) x file-splitting threshold knob in {default 1 MB, 64, 200, 1000, "
         "4000 bytes} (guarded hook, so multi-file and more-files-than-boxes shapes occur) x pre-existing output "
@@ -158,23 +158,38 @@ def check_slice(ctx, sig, m, out, cn, pos, L, names, what, taste=True):
             bad("grid_sizes", f"L{lv} grid {p.grid_sizes[lv]}")
         dxn = m.dx[lv][cn]
         eps = 1e-9 * dxn
-        want_fp = []
-        on_face = False
+        # boxes containing the plane in their interior must be written exactly once; boxes that
+        # only TOUCH the plane with a face may or may not be taken (which side is included is a
+        # matter of rounding), at most once each -- but where touching boxes exist on both sides of
+        # the plane over a pixel, at least one of them must be written (no hole in the slice)
+        strict_fp, below_fp, above_fp = [], [], []
         for (blo, bhi) in m.boxes[lv]:
             a = m.geo_low[cn] + blo[cn] * dxn
             e = m.geo_low[cn] + (bhi[cn] + 1) * dxn
-            if a - eps <= pos <= e + eps:
-                want_fp.append(((blo[cx], blo[cy]), (bhi[cx], bhi[cy])))
-                if abs(pos - a) <= 10 * eps or abs(pos - e) <= 10 * eps:
-                    on_face = True
+            fp = ((blo[cx], blo[cy]), (bhi[cx], bhi[cy]))
+            if a + 10 * eps < pos < e - 10 * eps:
+                strict_fp.append(fp)
+            elif abs(pos - e) <= 10 * eps:
+                below_fp.append(fp)
+            elif abs(pos - a) <= 10 * eps:
+                above_fp.append(fp)
         c = p.cells[lv]
         got_fp = [(tuple(lo), tuple(hi)) for lo, hi in c.indexes]
-        if on_face:
-            if set(got_fp) != set(want_fp):
-                bad("footprints", f"L{lv} footprints {sorted(set(got_fp))} != boxes met by the plane {sorted(set(want_fp))}")
-        elif Counter(got_fp) != Counter(want_fp):
-            bad("footprints", f"L{lv} footprints {sorted(got_fp)} != boxes met by the plane (each once) {sorted(want_fp)}",
-                dup=len(got_fp) != len(set(got_fp)))
+
+        def area(fps):
+            a_ = np.zeros((int(m.grid_sizes[lv][cx]), int(m.grid_sizes[lv][cy])), dtype=bool)
+            for (l_, h_) in fps:
+                a_[l_[0]:h_[0] + 1, l_[1]:h_[1] + 1] = True
+            return a_
+        cg = Counter(got_fp)
+        closed = Counter(strict_fp + below_fp + above_fp)
+        need = area(strict_fp) | (area(below_fp) & area(above_fp))
+        okfp = all(cg[k_] == v for k_, v in Counter(strict_fp).items() if k_ not in below_fp + above_fp) and \
+            all(v <= closed[k_] for k_, v in cg.items()) and not (need & ~area(got_fp)).any()
+        if not okfp:
+            bad("footprints", f"L{lv} footprints written {sorted(got_fp)}; boxes containing the plane {sorted(strict_fp)}, "
+                f"boxes touching it from below {sorted(below_fp)} / above {sorted(above_fp)}",
+                dup=len(got_fp) != len(set(got_fp)), on_face=bool(below_fp or above_fp))
         res["structure"].append((got_fp, list(c.files), list(c.offsets)))
         res["nfiles"].append(len(set(c.files)))
         # per-level expected plane data
@@ -209,7 +224,7 @@ def check_slice(ctx, sig, m, out, cn, pos, L, names, what, taste=True):
                     mask = (hl & hr)[sx, sy]
                     g = arr[..., k]
                     w = want[sx, sy]
-                    okm = np.abs(g[mask] - w[mask]) <= 1e-12 * np.abs(w[mask])
+                    okm = np.abs(g[mask] - w[mask]) <= 1e-11 * np.abs(w[mask])
                     if fname.startswith("aff_" + AX[cn]):
                         okm &= np.abs(g[mask] - mand.aff_value(m, cn, pos)) <= 1e-9 * (abs(mand.A0) + abs(mand.B0))
                     if not okm.all():
